@@ -21,6 +21,7 @@
 (*   s.nops   dispatched objects so far;  s.maxops budget (0 = none)       *)
 (*   s.feed   tokens the scanner has not delivered yet                     *)
 (*   s.cm     CIDInit scratch state (CIDInit.tla)                          *)
+(*   s.eex    0, or inside an eexec section: dictionary stack depth before *)
 (***************************************************************************)
 EXTENDS CIDInit
 
@@ -177,6 +178,31 @@ ExecOp(s, op) ==
               IF n < 1 THEN Fail(s, {"stackunderflow"})
               ELSE IF A(st, 0).t # "proc" THEN Fail(s, {"typecheck"})
               ELSE [s EXCEPT !.heap = BindProc(s.heap, s.dst, A(st, 0))]
+         [] op = "eexec" ->
+              \* Adobe Type 1 Font Format 7.1: what follows in the current file is decrypted and
+              \* executed with systemdict on top of the dictionary stack (the decryption itself is
+              \* the subject of Eexec.tla; on this level the section's plaintext tokens follow)
+              IF n < 1 THEN Fail(s, {"stackunderflow"})
+              ELSE IF A(st, 0).t # "nil" THEN Fail(s, {"typecheck"})
+              ELSE IF s.eex > 0 THEN Fail(s, {"invalidaccess"})      \* NestedEexecUnsupported
+              ELSE [s EXCEPT !.ost = Pop(st, 1), !.eex = Len(s.dst), !.dst = Append(@, SysId)]
+         [] op = "closefile" ->
+              IF n < 1 THEN Fail(s, {"stackunderflow"})
+              ELSE IF A(st, 0).t # "nil" THEN Fail(s, {"typecheck"})
+              ELSE IF s.eex = 0 THEN Skip(s)                          \* closing the program file itself: not generated
+              ELSE \* the section ends: whatever was running inside it is abandoned, the
+                   \* dictionary stack is restored, clear text follows
+                   [s EXCEPT !.ost = Pop(st, 1), !.est = <<>>, !.dst = SubSeq(@, 1, s.eex), !.eex = 0]
+         [] op = "readstring" ->
+              IF n < 2 THEN Fail(s, {"stackunderflow"})
+              ELSE IF A(st, 0).t # "str" THEN Fail(s, {"typecheck"})
+              ELSE IF A(st, 1).t # "nil" \/ s.feed = <<>> \/ Head(s.feed).t # "raw" THEN Skip(s)
+              ELSE LET buf == A(st, 0)
+                       data == Head(s.feed).bytes
+                       k == IF Len(data) < buf.len THEN Len(data) ELSE buf.len
+                   IN [s EXCEPT !.feed = Tail(@),
+                                !.heap = VPutSeq(s.heap, buf, 0, SubSeq(data, 1, k)),
+                                !.ost = Pop(st, 2) \o <<[buf EXCEPT !.len = k], BoolV(k = buf.len)>>]
          [] OTHER -> Skip(s)
 
 \* execute one object in execution context
@@ -263,18 +289,21 @@ ScanTok(s, tok0) ==
 \* one machine step
 Step(s) ==
     IF s.est # <<>> THEN StepFrame(s)
-    ELSE IF s.feed # <<>> THEN ScanTok([s EXCEPT !.feed = Tail(@)], Head(s.feed))
+    ELSE IF s.feed # <<>> THEN
+        (IF Head(s.feed).t = "raw" THEN Skip(s)      \* raw data that no readstring consumed: not generated
+         ELSE ScanTok([s EXCEPT !.feed = Tail(@)], Head(s.feed)))
+    ELSE IF s.eex > 0 THEN [s EXCEPT !.dst = SubSeq(@, 1, s.eex), !.eex = 0]   \* end of file inside the section
     ELSE [s EXCEPT !.status = "done"]
 
 FreshState(feed, maxops) ==
     [ost |-> <<>>, dst |-> FreshDictStack, heap |-> EmptyHeap, est |-> <<>>, open |-> <<>>,
-     status |-> "running", errs |-> {}, nops |-> 0, maxops |-> maxops, feed |-> feed, cm |-> CmOff]
+     status |-> "running", errs |-> {}, nops |-> 0, maxops |-> maxops, feed |-> feed, cm |-> CmOff, eex |-> 0]
 
 (***************************************************************************)
 (* Invariants of the design (checked by TLC in the MC configurations).   *)
 (***************************************************************************)
 StackBounded(s) == Len(s.ost) <= 2 * (MaxOpStack + 1)
-DictStackBounded(s) == Len(s.dst) <= MaxDictStack /\ Len(s.dst) >= 2
+DictStackBounded(s) == Len(s.dst) <= MaxDictStack + 1 /\ Len(s.dst) >= 2
 DepthBounded(s) == ProcDepth(s.est) <= MaxExecDepth
 OpsBounded(s) == s.maxops > 0 => s.nops <= s.maxops + 1
 DictStackBase(s) == s.dst[1] = SysId /\ s.dst[2] = UserId
